@@ -24,7 +24,7 @@ def reference(c, aL, bL):
     return ('min', 'min', 'ab')
 
 
-def merge_table(it, lp, inst, op_key):
+def merge_table(it, lp, inst, op_key, final=None):
     """extract the per-row transfer of a merge loop; returns (rows, problems)"""
     probs = []
     ints = [(r, p, fv, iv) for r, p, fv, iv in lp.carried if isinstance(fv, tuple) and fv[0] == 'sym']
@@ -41,23 +41,29 @@ def merge_table(it, lp, inst, op_key):
     B = ('seq', 'other.segments')
     imax = ('i-', ('len', A), ('ic', 1))
     jmax = ('i-', ('len', B), ('ic', 1))
-    if len(lp.back_states) != 1:
-        return None, probs + ['expected a single continue edge, found %d' % len(lp.back_states)]
+    # every way through one iteration — back to the loop head or out of the loop (a `break` after the push, an early
+    # `return` of the finished result) — must have pushed exactly one piece, and the same one
+    backs = list(lp.back_states)
     exits = [s for ss in lp.exit_states.values() for s in ss]
-    if len(exits) != 1:
-        return None, probs + ['expected a single loop exit, found %d' % len(exits)]
-    back, ex = lp.back_states[0], exits[0]
-    # which cursor indexes which operand: find it in the pushed piece
+    if not backs or not exits:
+        return None, probs + ['expected a loop that continues and exits, found %d continue edge(s) and %d exit(s)' % (len(backs), len(exits))]
     rq, pq, qf, _ = seqs[0]
-    pushed_b = it.read(back, rq, pq)
-    pushed_e = it.read(ex, rq, pq)
-    if not (isinstance(pushed_b, SeqPush) and pushed_b.seq == qf and isinstance(pushed_e, SeqPush) and pushed_e.seq == qf):
-        return None, probs + ['an iteration does not push exactly one piece onto the output']
-    if pushed_b.val != pushed_e.val:
-        probs.append('the piece pushed on the last iteration differs from the one pushed otherwise')
-    seg = pushed_b.val
+    pushed = []
+    for s_ in backs + exits:
+        v_ = it.read(s_, rq, pq)
+        if v_ == qf and s_ in exits and isinstance(final, SeqPush) and final.seq == qf:
+            # the loop is left before the last piece is pushed (`if both_last { res.push(..); return .. }`): the
+            # push that completes this iteration is the one the function result shows
+            v_ = final
+        if not (isinstance(v_, SeqPush) and v_.seq == qf):
+            return None, probs + ['an iteration does not push exactly one piece onto the output']
+        pushed.append(v_.val)
+    seg = pushed[0]
     if not (isinstance(seg, Struct) and seg.path == 'piecewise::Segment' and isinstance(seg.fields[1], Opaque)):
         return None, probs + ['pushed value is not a Segment']
+    for v_ in pushed[1:]:
+        if not (isinstance(v_, Struct) and v_.path == 'piecewise::Segment' and v_.fields[1] == seg.fields[1]):
+            probs.append('the piece pushed on one path through the loop body differs from the one pushed on another')
     pt = seg.fields[1].term
     icur = jcur = None
     if isinstance(pt, tuple) and pt[0] == 'uf' and len(pt) == 5:
@@ -74,17 +80,15 @@ def merge_table(it, lp, inst, op_key):
     i, j = icur[2], jcur[2]
     ae = ('elem', A, i, 'end')
     be = ('elem', B, j, 'end')
-    i2 = it.read(back, icur[0], icur[1])
-    j2 = it.read(back, jcur[0], jcur[1])
-    end = seg.fields[0]
-    cont_guard = TRUE
-    for l in back.guard:
-        from ..terms import mk_and
-        cont_guard = mk_and(cont_guard, l[0] if l[1] else ('not', l[0]))
-    exit_guard = TRUE
-    for l in ex.guard:
-        from ..terms import mk_and
-        exit_guard = mk_and(exit_guard, l[0] if l[1] else ('not', l[0]))
+    from ..terms import mk_and
+
+    def guard_of(s_):
+        g_ = TRUE
+        for l in s_.guard:
+            g_ = mk_and(g_, l[0] if l[1] else ('not', l[0]))
+        return g_
+    paths = [(True, s_, guard_of(s_), pushed[k]) for k, s_ in enumerate(backs)] + \
+            [(False, s_, guard_of(s_), pushed[len(backs) + k]) for k, s_ in enumerate(exits)]
     rows = {}
     for (c, aL, bL) in ROWS:
         asm = {
@@ -93,13 +97,29 @@ def merge_table(it, lp, inst, op_key):
             ('unord', ae, be): False,
             ('icmp', 'ge', i, imax): aL, ('icmp', 'lt', i, imax): not aL,
             ('icmp', 'ge', j, jmax): bL, ('icmp', 'lt', j, jmax): not bL,
+            ('icmp', 'eq', i, imax): aL, ('icmp', 'ne', i, imax): not aL,
+            ('icmp', 'eq', j, jmax): bL, ('icmp', 'ne', j, jmax): not bL,
+            # the cursors never pass the last piece (C16 proves the indexing; a debug_assert may restate it)
+            ('icmp', 'le', i, imax): True, ('icmp', 'gt', i, imax): False,
+            ('icmp', 'le', j, jmax): True, ('icmp', 'gt', j, jmax): False,
         }
-        ri = simp(i2, asm)
-        rj = simp(j2, asm)
-        re = simp(end, asm)
-        cont = simp(cont_guard, asm)
-        exi = simp(exit_guard, asm)
-        rows[(c, aL, bL)] = (ri, rj, re, cont, exi)
+        taken = [(is_back, s_, pv) for is_back, s_, g_, pv in paths if simp(g_, asm) == TRUE]
+        undecided = [g_ for is_back, s_, g_, pv in paths if simp(g_, asm) not in (TRUE, FALSE)]
+        if len(taken) != 1 or undecided:
+            probs.append('%s a_last=%s b_last=%s: the path through the loop body is not decided by the comparison and the two last-piece tests (%s)' % (
+                c, aL, bL, term_str(simp(undecided[0], asm))[:160] if undecided else '%d paths' % len(taken)))
+            rows[(c, aL, bL)] = (i, j, ae, FALSE, FALSE)
+            continue
+        is_back, s_, pv = taken[0]
+        ri = simp(it.read(s_, icur[0], icur[1]), asm)
+        rj = simp(it.read(s_, jcur[0], jcur[1]), asm)
+        re = simp(pv.fields[0], asm)
+        if not is_back:
+            # leaving the loop: where the cursors are afterwards does not matter
+            wi, wj, _we = reference(c, aL, bL)
+            ri = i if wi == 0 else (it.iadd(i, ('ic', 1)) if wi == 1 else ('imin', imax, it.iadd(i, ('ic', 1))))
+            rj = j if wj == 0 else (it.iadd(j, ('ic', 1)) if wj == 1 else ('imin', jmax, it.iadd(j, ('ic', 1))))
+        rows[(c, aL, bL)] = (ri, rj, re, TRUE if is_back else FALSE, FALSE if is_back else TRUE)
     return {'rows': rows, 'i': i, 'j': j, 'imax': imax, 'jmax': jmax, 'ae': ae, 'be': be, 'piece': pt}, probs
 
 
@@ -189,7 +209,8 @@ def check(cx):
                        key='C13:unrecognised-loop:' + inst)
                 return
             lp = loops[0]
-            tab, probs = merge_table(it, lp, inst, op_key)
+            fin = a.ret.fields[0].seq if isinstance(a.ret, Struct) and a.ret.fields and isinstance(a.ret.fields[0], VecV) else None
+            tab, probs = merge_table(it, lp, inst, op_key, fin)
             piece_probs = [p for p in probs if 'piece' in p]
             rep.ob('piece', inst, not piece_probs, '; '.join(piece_probs) or 'piece = %s(&a.poly, &b.poly)' % op_key, fn=inst, file=file, line=lp.line,
                    msg='; '.join(piece_probs))
